@@ -71,8 +71,13 @@ class AnyMap(dict):
 
 
 def heavy(s):
-    """a literal width/precision that would make the interpreter allocate a lot: never formatted live"""
-    return any(6 < len(m) for m in re.findall(r'[0-9]+', s))
+    """a literal width/precision that would make the interpreter allocate a lot: never formatted live.
+    Numbers the parsing code itself refuses (width > PY_SSIZE_T_MAX, precision > INT_MAX) are harmless."""
+    for m in re.finditer(r'(\.?)([0-9]+)', s):
+        v = int(m.group(2))
+        if v > 10 ** 6 and v <= ((1 << 31) - 1 if m.group(1) else (1 << 63) - 1):
+            return True
+    return False
 
 
 def live_class(s, v):
